@@ -488,8 +488,9 @@ def translate_group(group):
             spec.setdefault('patterns', [])
             spec['patterns'] = spec['patterns'] + group.get('patterns', [])
             spec['stmt_patterns'] = spec.get('stmt_patterns', []) + group.get('stmt_patterns', [])
+            body = Fn(spec, node).translate()
             parts.append('/-- %s:%s (line %d) -/' % (f['file'], f['func'], node.lineno))
-            parts.append(Fn(spec, node).translate())
+            parts.append(body)
             parts.append('')
         except (TranslationError, SyntaxError, OSError) as e:
             errors.append('%s:%s: %s' % (f['file'], f['func'], e))
